@@ -58,10 +58,18 @@ func TestVerifBounded_C04_Descriptors(t *testing.T) {
 						t.Fatal(err)
 					}
 				}
+				// a replica that holds a ring but has never heard of the entry (the tombstone overtook every earlier message)
+				stranger := NewDesc()
+				verifC04Add(stranger, "b", []uint32{3}, ACTIVE, 500)
+				for _, m := range seqs[order] {
+					if _, err := stranger.Merge(m.Clone(), false); err != nil {
+						t.Fatal(err)
+					}
+				}
 				for _, m := range []*Desc{old, old} {
 					_, _ = replica.Merge(m.Clone(), false)
 				}
-				for name, d := range map[string]*Desc{"origin": replica, "peer": other} {
+				for name, d := range map[string]*Desc{"origin": replica, "peer": other, "peer that never saw the entry": stranger} {
 					if x := d.Ingesters["a"]; x.State != LEFT || len(x.Tokens) != 0 {
 						report(fmt.Sprintf("c04-desc-resurrected:ts=%d:state=%v:order=%d", ts, st, order), fmt.Sprintf("%s replica shows %v after an earlier message (ts %d) although the tombstone (ts %d) is retained", name, x, ts, removal.Unix()))
 					}
@@ -89,7 +97,7 @@ func TestVerifBounded_C04_Descriptors(t *testing.T) {
 			}
 		}
 	}
-	fmt.Printf("BOUNDED-CASES name=C04_Descriptors n=%d distinct=%d bound=removal at second 1000; earlier messages with timestamps {1,999,1000} x 5 states x 3 delivery orders (incl. duplicates); origin and peer replica; retention limits around the removal\n", cases, cases)
+	fmt.Printf("BOUNDED-CASES name=C04_Descriptors n=%d distinct=%d bound=removal at second 1000; earlier messages with timestamps {1,999,1000} x 5 states x 3 delivery orders (incl. duplicates); origin replica, a peer that knew the entry and a peer that never saw it; retention limits around the removal\n", cases, cases)
 	if fails > 0 {
 		t.Fatalf("%d mismatches", fails)
 	}
